@@ -120,6 +120,10 @@ CASES = [
     ("luau: mark_contains_union forgets its mark", "src/formatters/luau.rs", "            contains_union: true,\n            ..self", "            contains_union: false,\n            ..self", "luau", "all", "C02.luau_context_marks"),
     ("harmless: mark_contains_union also sets the table indexer mark (more parentheses are kept, none is lost)", "src/formatters/luau.rs", "            contains_union: true,\n            ..self", "            contains_union: true,\n            within_table_indexer: true,\n            ..self", "luau", "all", "ok"),
     ("harmless: every type starts out in a context that has the variadic mark", "src/formatters/luau.rs", "            within_optional: false,\n            within_variadic: false,", "            within_optional: false,\n            within_variadic: true,", "luau", "all", "ok"),
+    ("join: only a single line comment is moved onto its own line behind a single line comment", "src/formatters/trivia_util.rs", "        if behind_singleline_comment && trivia_is_comment(&token) {", "        if behind_singleline_comment && trivia_is_singleline_comment(&token) {", "tok", "default", "C03.join_loop"),
+    ("join: the second list is dropped when the first ends in a comment", "src/formatters/trivia_util.rs", "    let mut trivia = first;\n    trivia.extend(second);", "    let mut trivia = first;\n    if !trivia.last().map_or(false, trivia_is_comment) {\n        trivia.extend(second);\n    }", "tok", "default", "undecided"),
+    ("harmless: join_trailing_trivia does not reserve capacity", "src/formatters/trivia_util.rs", "    let mut joined: Vec<Token> = Vec::with_capacity(trivia.len());", "    let mut joined: Vec<Token> = Vec::new();", "tok", "default", "ok"),
+    ("collapse: a comment behind the Luau return type no longer keeps the body on its own lines (D44)", "src/formatters/functions.rs", "    let require_multiline_function = require_multiline_function\n        || function_body", "    let require_multiline_function = require_multiline_function\n        || false && function_body", "collapse", "all", "C01.collapsed_function_return_type_closed"),
     # a predicate moved into a new helper next to the function: the helper is inlined (gen.InlineHelper) and verified as part of the caller
     ("helper: the sugar decision moved into a helper that forgets the Input exception", FU, [FA_DOC, FA_STR, FA_TAB], [HELPER_BAD + FA_DOC, FA_STR_H, FA_TAB_H], "args", "default", "C11.input_keeps_form"),
     ("harmless: the sugar decision moved into a helper (with a binding and an early return)", FU, [FA_DOC, FA_STR, FA_TAB], [HELPER_OK + FA_DOC, FA_STR_H, FA_TAB_H], "args", "default", "ok"),
